@@ -274,6 +274,7 @@ class JointRecurrencePlot(RecurrencePlot):
             self.JR = recurrence_y[:N+self.lag, :N+self.lag] * \
                 recurrence_x[-self.lag:N, -self.lag:N]
         self.N = N - abs(self.lag)
+        self._recurrence_matrix_changed()
 
     def set_fixed_threshold_std(self, threshold_std):
         """
@@ -337,3 +338,4 @@ class JointRecurrencePlot(RecurrencePlot):
             self.JR = recurrence_y[:N+self.lag, :N+self.lag] * \
                 recurrence_x[-self.lag:N, -self.lag:N]
         self.N = N - abs(self.lag)
+        self._recurrence_matrix_changed()
